@@ -82,14 +82,14 @@ Qed.
 Theorem eval_creates_expr f copyall ss r :
   impl_eval f copyall ss = EOk r ->
   exists en tkey base,
-    exec (file_env f) ss = Some en /\ template f ss = Some tkey /\ base_vars f copyall tkey = Some base
+    exec true (file_env f) ss = Some en /\ template f ss = Some tkey /\ base_vars f copyall tkey = Some base
     /\ (forall k, is_target ss k = true -> exists a, elookup k en = Some (VA a) /\ elookup k r = Some a)
     /\ (forall k, is_target ss k = false -> elookup k r = elookup k base).
 Proof.
   unfold impl_eval. intros H.
   destruct (template f ss) as [tkey|]; try discriminate.
   destruct (base_vars f copyall tkey) as [base|] eqn:Eb; try discriminate.
-  destruct (exec (file_env f) ss) as [en|] eqn:Ee; try discriminate.
+  destruct (exec true (file_env f) ss) as [en|] eqn:Ee; try discriminate.
   destruct (store en (assigned ss) base) as [r'|] eqn:Es; try discriminate. injection H as <-.
   destruct (store_spec _ _ _ _ Es (assigned_nodup ss)) as [A B].
   exists en, tkey, base. repeat split; auto.
@@ -107,10 +107,10 @@ Qed.
 (* single assignment k = e : the created variable is the cellwise evaluation of e *)
 Theorem eval_single f copyall k e r :
   impl_eval f copyall [(k, e)] = EOk r ->
-  exists a, eval_expr (file_env f) e = Some (VA a) /\ elookup k r = Some a.
+  exists a, eval_expr true (file_env f) e = Some (VA a) /\ elookup k r = Some a.
 Proof.
   intros H. destruct (eval_creates_expr _ _ _ _ H) as [en [tkey [base [He [_ [_ [A _]]]]]]].
-  simpl in He. destruct (eval_expr (file_env f) e) as [v|] eqn:E; try discriminate.
+  simpl in He. destruct (eval_expr true (file_env f) e) as [v|] eqn:E; try discriminate.
   injection He as <-.
   assert (T : is_target [(k, e)] k = true) by (simpl; rewrite Nat.eqb_refl; reflexivity).
   destruct (A k T) as [a [H1 H2]].
@@ -118,11 +118,14 @@ Proof.
 Qed.
 
 (* cellwise meaning of a binary operation on two arrays of equal length *)
-Theorem val_bin_cells o p q :
+Theorem val_bin_cells quirk o p q :
   length (e_cells p) = length (e_cells q) ->
-  val_bin o (VA p) (VA q)
-  = Some (VA (EA (e_ma p || e_ma q) (map2 (cell_bin o (e_ma p || e_ma q)) (e_cells p) (e_cells q)))).
-Proof. intros H. simpl. rewrite H, Nat.eqb_refl. reflexivity. Qed.
+  val_bin quirk o (VA p) (VA q)
+  = let rk := res_kind quirk (e_kind p) (e_kind q) in
+    Some (VA (EA (fst rk) (map2 (cell_bin o (is_ma (fst rk)))
+                                (if snd rk then clear_masks (e_cells p) else e_cells p)
+                                (if snd rk then clear_masks (e_cells q) else e_cells q)))).
+Proof. intros H. simpl. rewrite H, Nat.eqb_refl. destruct (res_kind quirk (e_kind p) (e_kind q)); reflexivity. Qed.
 
 (* masked-array semantics of one cell: masks unite; plain arithmetic never masks *)
 Theorem cell_bin_mask o is_ma c d :
@@ -141,3 +144,61 @@ Proof.
       assert (X : rv_is_zero (raw d) || nonfin (rv_div (raw c) (raw d)) = true) by (apply orb_true_iff; exact H3).
       simpl in X. rewrite X. apply orb_true_r.
 Qed.
+
+(* ---- where the library's evaluation IS masked-array semantics ------------------------------ *)
+Definition clean_v (v : eval_v) : Prop := match v with VA a => e_kind a <> KNpMa | VS _ => True end.
+Definition clean_env (en : env) : Prop := forall k v, elookup k en = Some v -> clean_v v.
+
+Lemma val_bin_clean o x y :
+  clean_v x -> clean_v y ->
+  val_bin true o x y = val_bin false o x y /\ forall v, val_bin false o x y = Some v -> clean_v v.
+Proof.
+  destruct x as [a|p], y as [b|q]; simpl; intros Cx Cy.
+  - split; auto. intros v H; injection H as <-; exact I.
+  - split; auto. intros v H; injection H as <-; exact Cy.
+  - split; auto. intros v H; injection H as <-; exact Cx.
+  - destruct (length (e_cells p) =? length (e_cells q)); [|split; [auto | discriminate]].
+    destruct (e_kind p) eqn:Kp, (e_kind q) eqn:Kq; simpl; try congruence;
+      (split; [reflexivity | intros v H; injection H as <-; simpl; discriminate]).
+Qed.
+
+Lemma eval_expr_clean en e :
+  no_maskcall e = true -> clean_env en ->
+  eval_expr true en e = eval_expr false en e /\ forall v, eval_expr false en e = Some v -> clean_v v.
+Proof.
+  intros N C. induction e as [n|q|a IH|o a IHa b IHb|l a IH q]; simpl in *; try discriminate.
+  - split; auto. intros v H. eapply C; eauto.
+  - split; auto. intros v H; injection H as <-; exact I.
+  - destruct (IH N) as [E Cl]. rewrite E. split; auto.
+    intros v H. destruct (eval_expr false en a) as [x|]; try discriminate. injection H as <-.
+    specialize (Cl x eq_refl). destruct x; simpl in *; auto.
+  - apply andb_true_iff in N as [Na Nb]. destruct (IHa Na) as [Ea Ca], (IHb Nb) as [Eb Cb].
+    rewrite Ea, Eb. destruct (eval_expr false en a) as [x|]; [|split; [auto|discriminate]].
+    destruct (eval_expr false en b) as [y|]; [|split; [auto|discriminate]].
+    apply val_bin_clean; auto.
+Qed.
+
+Lemma exec_clean ss : forall en,
+  forallb (fun s => no_maskcall (snd s)) ss = true -> clean_env en -> exec true en ss = exec false en ss.
+Proof.
+  induction ss as [|[k e] ss IH]; simpl; intros en N C; auto.
+  apply andb_true_iff in N as [Ne Ns]. destruct (eval_expr_clean en e Ne C) as [E Cl]. rewrite E.
+  destruct (eval_expr false en e) as [v|]; auto. apply IH; auto.
+  intros k' v' H. simpl in H. destruct (k =? k'); [injection H as <-; auto | eapply C; eauto].
+Qed.
+
+Lemma file_env_clean f :
+  (forall p, In p (ef_vars f) -> e_kind (snd p) <> KNpMa) -> clean_env (file_env f).
+Proof.
+  intros H k v. unfold file_env. induction (ef_vars f) as [|[k0 a] l IH]; simpl; try discriminate.
+  destruct (k0 =? k); intros E.
+  - injection E as <-. simpl. apply (H (k0, a)). left; auto.
+  - apply IH; auto. intros p Hp. apply H. right; auto.
+Qed.
+
+(* without np.ma.* calls in the statements the library evaluates exactly by masked-array semantics *)
+Theorem eval_quirk_free f ss :
+  (forall p, In p (ef_vars f) -> e_kind (snd p) <> KNpMa) ->
+  forallb (fun s => no_maskcall (snd s)) ss = true ->
+  exec true (file_env f) ss = exec false (file_env f) ss.
+Proof. intros H N. apply exec_clean; auto. apply file_env_clean; auto. Qed.
